@@ -19,7 +19,7 @@ RULE = ("each generated host program with sub-graph call sites (sub-graphs with 
         "parent's current time. Non-trivial: >= 1 call site whose sub-graph contains a self-scheduling node; distinct by text")
 ASSUMPTIONS = ["vp/model.py flattening is the definition of 'inlined' behaviour", "variants of one group differ only in the how= of the call sites",
                "g++-12 -O1 build of the working tree with harness-side shims"]
-FLOORS = {"variant_pairs_compared": {"quick": 500, "thorough": 8000}, "child_evals_time_checked": {"quick": 5000, "thorough": 80000},
+FLOORS = {"dynamic_child_wakeups_honoured": {"quick": 200, "thorough": 3000}, "variant_pairs_compared": {"quick": 500, "thorough": 8000}, "child_evals_time_checked": {"quick": 5000, "thorough": 80000},
           "child_timer_wakeups": {"quick": 300, "thorough": 4000}, "nested_in_dynamic_child_cases": {"quick": 30, "thorough": 500}, "structured_result_ticks_compared": {"quick": 600, "thorough": 10000}}
 BATCH = 24
 
@@ -213,6 +213,15 @@ def generate(rng, tier, seed):
             cases.append(c)
             got += 1
     cases += [gen_quad_case(rng, f"c09_{seed}_q{k}") for k in range(n // 3)]
+    # "none of its wake-ups is lost" for sub-graphs that run as DYNAMIC children (a map_ instance per key / per list element, a
+    # mesh_ instance): sources that arm their first wake-up from start for a later time while nothing else in the new child is
+    # due, timers pending in one child while a sibling runs, instances paused and resumed - the C02 trace oracle (every request
+    # made inside a child that is alive at its time is honoured at exactly that time, inside its owner's bracket)
+    from .c02 import gen_map_start_timers, gen_listmap_timers, gen_mesh_timers
+    for k in range(n // 6):
+        c = (gen_map_start_timers, gen_listmap_timers, gen_mesh_timers)[k % 3](rng, f"c09_{seed}_dw{k}")
+        c.meta["delegate"] = "c02timers"
+        cases.append(c)
     for k in range(max(6, n // 5)):
         cases += gen_capture_cases(rng, f"c09_{seed}_cap{k}")
     from .witness import f4_case
@@ -304,6 +313,11 @@ def check(case, tr):
         return check_witness(case, tr)
     if case.meta.get("quad"):
         return check_quad(case, tr)
+    if case.meta.get("delegate") == "c02timers":
+        from .c02 import check_reduce_timers
+        r = check_reduce_timers(case, tr)
+        r.counters = {"dynamic_child_wakeups_honoured": sum(v for k_, v in r.counters.items() if k_.endswith("honoured"))}
+        return r
     if case.meta.get("delegate"):
         from . import c10, c12
         r = (c12 if case.meta["delegate"] == "c12" else c10).check(case, tr)
